@@ -4,6 +4,8 @@ stdin JSON (all keys optional):
   {"parse": [hex, ...],                      AdvDataFieldList.from_bytes(bytes)
    "build": [[call, ...], ...],              constructors, AdvDataFieldList(*recs).to_bytes(), from_bytes of it
    "scan":  [[kind, hex], ...],              AdvertisingDevicesDB.on_device_found on an ADV_IND/NONCONN/SCAN_RSP
+   "seq":   [{"filter": id|null, "updates": bool, "events": [[pdu, addr id, txadd, rssi, hex], ...]}, ...]
+                                             one AdvertisingDevicesDB per case, on_device_found per event (time frozen)
    "exh":   {"len": 3, "lo": a, "hi": b},    exhaustive oracle on all strings of that length whose first byte is in [a,b)
    "utf8":  {"rows": bool, "decode": [hex, ...], "encode": [[cp, ...], ...]}}   CPython codec facts
 stdout: RESULT {...} (canonical observables only: ints, hex, class names).
@@ -232,6 +234,70 @@ def do_scan(kind, adv):
         return {"exc": exc_name(e)}
 
 
+PDU_BYTE = {"AdvInd": 0x00, "AdvNonconn": 0x02, "ScanRsp": 0x04, "OtherPdu": 0x06}
+
+
+def addr_wire(i):
+    return bytes([i & 0xFF, 0x11, 0x22, 0x33, 0x44, 0x55])
+
+
+def addr_str(i):
+    return ":".join("%02x" % b for b in reversed(addr_wire(i)))
+
+
+def dev_obs(d):
+    rsp = d.scan_rsp_records
+    return [d.address_type, d.rssi, [canon(r) for r in d.adv_records],
+            None if rsp is None else [canon(r) for r in rsp],
+            bool(d.got_scan_rsp), bool(d.connectable), bool(d.scanned), bool(d.reported)]
+
+
+def do_seq(case):
+    """A sequence of advertisements on one database. Per event: the bytes scapy re-joins from
+    the dissected records (what on_device_found parses), the returned devices or the escaping
+    exception class (the sequence stops there); at the end find_device() of every address."""
+    import whad.ble.scanning as S
+    from scapy.layers.bluetooth4LE import BTLE_ADV, BTLE_ADV_IND, BTLE_ADV_NONCONN_IND, BTLE_SCAN_RSP
+    S.time = lambda: 1000.0          # the 0.5 s scan-response timeout never elapses
+    layers = {"AdvInd": BTLE_ADV_IND, "AdvNonconn": BTLE_ADV_NONCONN_IND, "ScanRsp": BTLE_SCAN_RSP}
+    del URLS[:]
+    db = S.AdvertisingDevicesDB()
+    filt = None if case["filter"] is None else addr_str(case["filter"])
+    ids = {}
+    steps = []
+    for pdu, a, txadd, rssi, hx in case["events"]:
+        adv = bytes.fromhex(hx)
+        ids[addr_str(a)] = a
+        raw = bytes([PDU_BYTE[pdu] | (txadd << 6), 6 + len(adv)]) + addr_wire(a) + adv
+        st = {}
+        try:
+            pkt = BTLE_ADV(raw)
+            if pdu in layers:
+                lay = pkt.getlayer(layers[pdu])
+                st["joined"] = b"".join(bytes(r) for r in lay.data).hex()
+                st["dissected"] = [str(lay.AdvA).lower() == addr_str(a), pkt.TxAdd == txadd]
+            else:
+                st["joined"] = hx
+                st["dissected"] = [not any(pkt.haslayer(l) for l in layers.values()), pkt.TxAdd == txadd]
+        except Exception as e:  # noqa  (scapy, not whad)
+            st["scapy_exc"] = exc_name(e)
+            steps.append(st)
+            break
+        try:
+            devs = db.on_device_found(rssi, pkt, filt, updates=case["updates"])
+            st["ret"] = [ids.get(d.address, 0) for d in devs]
+        except Exception as e:  # noqa
+            st["exc"] = exc_name(e)
+            steps.append(st)
+            break
+        steps.append(st)
+    final = []
+    for s_, i in sorted(ids.items(), key=lambda kv: kv[1]):
+        d = db.find_device(s_)
+        final.append([i, None if d is None else dev_obs(d)])
+    return {"steps": steps, "final": final, "urls": list(URLS)}
+
+
 def do_exh(n, lo, hi):
     """All byte strings of length n with first byte in [lo, hi): the property's second
     clause on the real code. Returns counts and the first failing strings."""
@@ -295,6 +361,8 @@ def main():
         res["build"] = [do_build(c) for c in req["build"]]
     if "scan" in req:
         res["scan"] = [do_scan(k, bytes.fromhex(h)) for k, h in req["scan"]]
+    if "seq" in req:
+        res["seq"] = [do_seq(c) for c in req["seq"]]
     if "exh" in req:
         res["exh"] = do_exh(req["exh"]["len"], req["exh"]["lo"], req["exh"]["hi"])
     if "utf8" in req:
